@@ -25,6 +25,19 @@ SHAPES = '''   This time prefer one of these shapes (they are what really gets c
    It must **need something specific to manifest** - not something ordinary use would expose at once, and not blatant sabotage.'''
 
 
+SHAPES_B = '''   This time prefer one of these shapes (they are what really gets committed, and the hardest to notice):
+   * **typing / linting driven refactoring**: replacing dynamic attribute access by explicit fields, narrowing an Optional, turning a
+     list into a tuple, frozenset or generator (laziness and ordering change), a dataclass or NamedTuple conversion, `functools.cache`
+     on a helper, f-strings for `%`-formatting, `dict | dict` for `update`, `match` for an `if` chain - with one edge that differs;
+   * **error-handling changes**: narrowing or widening an `except` clause, moving clean-up into or out of `finally`, an early
+     `return`/`continue`, `contextlib.suppress`, raising a friendlier exception type, re-raising from a different place;
+   * **an API or configuration extension**: a new option with a default, accepting a new input type (Path, bytes, bytearray,
+     memoryview, file object), a new spelling of a statement or attribute - whose default path is subtly not the old behaviour;
+   * **performance for large inputs**: precompiled or combined regular expressions, `str.join` over concatenation, slicing instead of
+     copying, binary search instead of a scan, an index instead of a linear lookup - correct except at a boundary.
+   It must **need something specific to manifest** - not something ordinary use would expose at once, and not blatant sabotage.'''
+
+
 def main(rd, pids):
     props = {}
     for line in open(os.path.join(VERIF, 'properties.jsonl')):
@@ -81,7 +94,7 @@ different clause of the property and a different mechanism:
 * anything you noticed about the *unmodified* code that already seems to contradict the property (with a minimal
   reproduction), if you came across it - do not go looking for long.
 ''' % {'wt': wt, 'pid': pid, 'title': p['title'], 'statement': p['statement'], 'quant': p['quantifier'],
-       'anchors': json.dumps(p['anchors']), 'shapes': SHAPES,
+       'anchors': json.dumps(p['anchors']), 'shapes': SHAPES_B if os.environ.get('SEED_SHAPES') == 'B' else SHAPES,
        'earlier': '\n'.join('* ' + e for e in earlier.get(pid, [])) or '* (none)'}
         open(os.path.join(rd, 'TASK_%s.md' % pid), 'w').write(t)
     print('wrote', len(pids or props), 'task files in', rd)
